@@ -19,5 +19,5 @@ one() {
   echo "$out"; rm -rf "$s"
 }
 export -f one
-printf '%s\n' "$@" | xargs -P 4 -I{} bash -c 'one {}'
+printf '%s\n' "$@" | xargs -P ${ROP_P:-4} -I{} bash -c 'one {}'
 rm -f $VERIF_BIN
